@@ -703,7 +703,7 @@ class FakeSctpSocket(FakeSocket):
     def __init__(self, family=None, *a, **k):
         super().__init__(family)
         self.proto = "sctp"
-        self.sctp_flags = []
+        self.sctp_flags = set()        # distinct flag words seen (a set: the harness measures container sizes for C19)
 
     def bindx(self, addrs, *a):
         if self.closed:
@@ -714,7 +714,7 @@ class FakeSctpSocket(FakeSocket):
         return self.connect(tuple(list(addrs)[0]))
 
     def sctp_send(self, msg, to=("", 0), ppid=0, flags=0, stream=0, timetolive=0, context=0):
-        self.sctp_flags.append(flags)
+        self.sctp_flags.add(flags)
         return self.send(msg)
 
 
